@@ -6,6 +6,7 @@ open Pangaea.Either Pangaea.Drv
 
 inductive CV where
   | nil | int (i : Int) | str (s : String) | bool (b : Bool) | sym (s : String) | arr (xs : List CV) | errw (k : String)
+  | ev (v : CV) | ee (k : String)   -- an Either held as a value (the result of a step that itself uses `try`)
   deriving Repr, Inhabited
 
 def typeErr : Outcome CV := .err ⟨"TypeErr", ""⟩
@@ -36,6 +37,25 @@ def step (s : String) : Option (CV → Outcome CV) :=
       | .int a => .val (.int a)
       | .nil => .err ⟨"NoPropErr", ""⟩
       | _ => typeErr)
+  -- array-valued results and literal steps with one / two parameters (two or more parameters unpack an array)
+  | ["Lpair"] => some (fun v => match v with
+      | .int a => .val (.arr [.int a, .int (a + 1)])
+      | _ => typeErr)
+  | ["Lsum2"] => some (fun v => match v with
+      | .arr [.int a, .int b] => .val (.int (a + b))
+      | .int a => .val (.int a)           -- the second parameter is nil, and `a + nil` is `a`
+      | _ => typeErr)
+  | ["Lone"] => some (fun v => .val v)
+  | ["Lfirst"] => some (fun v => match v with
+      | .arr (x :: _) => .val x
+      | .arr [] => .val .nil
+      | x => .val x)                      -- `{|a, b| a}`
+  | ["len"] => some (fun v => match v with
+      | .arr xs => .val (.int xs.length)
+      | _ => .err ⟨"NoPropErr", ""⟩)
+  -- a step whose own result is an Either
+  | ["Ltry"] => some (fun v => .val (.ev v))
+  | ["Ltryfail"] => some (fun _ => .val (.ee "ZeroDivisionErr"))
   | ["Lnoprop"] => some (fun _ => .err ⟨"NoPropErr", ""⟩)
   | ["Lraise", k] => some (fun _ => .err ⟨k, ""⟩)
   | _ => none
@@ -48,6 +68,8 @@ partial def render : CV → String
   | .sym s => s
   | .arr xs => "[" ++ joinWith "," (xs.map render) ++ "]"
   | .errw k => k
+  | .ev v => "ev(" ++ render v ++ ")"
+  | .ee k => "ee(" ++ k ++ ")"
 
 def renderE (e : E CV) : String := render (e.A .nil (fun x => .errw x.kind) (fun a b => .arr [a, b]))
 
